@@ -60,7 +60,9 @@ int LLVMFuzzerTestOneInput(const uint8_t *data, size_t size)
   }
   for (i = 0; i < concurrency[c]; i++) { d[c][i].used = 1; d[c][i].j = (int) (i % (unsigned) numjobs); d[c][i].delid = 1000 + i; d[c][i].mpos = 0; }
   concurrencyused[c] = concurrency[c]; used0 = concurrencyused[c];
-  dline[c].len = 0; flagexitasap = 0; flagspawnalive[c] = 1;
+  FZ_FRESH(dline[c]); if (!stralloc_copys(&dline[c], "")) abort();       /* as del_init() leaves it */
+  FZ_FRESH(foo); FZ_FRESH(bouncetext);
+  flagexitasap = 0; flagspawnalive[c] = 1;
   if (!setjmp(fz_jb)) {
     while (fz_inoff < fz_inlen) del_dochan(c);
     del_dochan(c);                         /* end of stream: "lost spawn connection" */
